@@ -26,6 +26,7 @@ CONSTANTS Arr,             \* array identities (content digests)
           Parents, Points, \* parent particles / data points (abstract)
           MaxKids,         \* max length of a children list
           LogSKeyIsSet,    \* deviation: compute_log_S keyed by the SET of digests (collapses duplicates)
+          WeakDigest,      \* deviation: the content digest is not injective on the arrays met (two arrays share a digest)
           KeyHasAlpha,     \* TRUE as implemented; FALSE = deviation (proposal / new-tree keys ignore alpha)
           Protocol         \* TRUE: calls of the proposal caches only happen after a clear that follows the last alpha change
 
@@ -40,10 +41,14 @@ TrueVal(fn, args, al) ==
     [] fn = "conv2"   -> [fn |-> fn, dep |-> BagOf(args)]
     [] fn = "prop"    -> [fn |-> fn, dep |-> <<args, al>>]
     [] fn = "newtree" -> [fn |-> fn, dep |-> <<args, al>>]
+\* the content digest of an array: as implemented a 64-bit hash, injective on any set of arrays a run meets;
+\* WeakDigest: every array collides with the smallest one
+Dg(x) == IF WeakDigest THEN (CHOOSE m \in Arr : \A y \in Arr : m <= y) ELSE x
+DgSeq(s) == [j \in DOMAIN s |-> Dg(s[j])]
 \* the key functions
 KeyOf(fn, args, al) ==
-  CASE fn = "logS"    -> <<fn, IF LogSKeyIsSet THEN {args[j] : j \in DOMAIN args} ELSE BagOf(args)>>
-    [] fn = "conv2"   -> <<fn, {args[1], args[2]}>>
+  CASE fn = "logS"    -> <<fn, IF LogSKeyIsSet THEN {Dg(args[j]) : j \in DOMAIN args} ELSE BagOf(DgSeq(args))>>
+    [] fn = "conv2"   -> <<fn, {Dg(args[1]), Dg(args[2])}>>
     [] fn = "prop"    -> <<fn, args, IF KeyHasAlpha THEN al ELSE 0>>
     [] fn = "newtree" -> <<fn, args, IF KeyHasAlpha THEN al ELSE 0>>
 Calls == {<<"logS", s>> : s \in SeqsUpTo(Arr, MaxKids)} \cup {<<"conv2", s>> : s \in [1..2 -> Arr]}
